@@ -958,6 +958,12 @@ class WalletTransaction(Transaction):
                 sess.add(new_tx_item)
             elif key_id:
                 tx_output.key_id = key_id
+                if spent is False and tx_output.spent and sess.query(DbTransactionInput).join(DbTransaction). \
+                        filter(DbTransaction.wallet_id == self.hdwallet.wallet_id,
+                               DbTransactionInput.prev_txid == bytes.fromhex(self.txid),
+                               DbTransactionInput.output_n == to.output_n).first():
+                    # Output is spent by another transaction of this wallet, this transaction object is older
+                    spent = True
                 tx_output.spent = spent if spent is not None else tx_output.spent
             self.hdwallet._commit()
         return txidn
